@@ -61,6 +61,7 @@ func hashStr(s string) string {
 // doCompile compiles under the lexer-read monitor and classifies the outcome.
 func doCompile(src []byte, c *wire.Case) (v *libvore.Vore, cr *wire.Compile) {
 	cr = &wire.Compile{}
+	caseStartCPU.Store(cpuMicros())
 	lexReads = 0
 	lexBudget = c.LexBudget
 	if lexBudget == 0 {
@@ -209,6 +210,7 @@ func stepBudget(c *wire.Case) int {
 
 // monitoredRun executes fn (a Run or RunFiles call) under the step monitor.
 func monitoredRun(c *wire.Case, fn func() engine.Matches) (r wire.Run, ms engine.Matches) {
+	caseStartCPU.Store(cpuMicros()) // the CPU guard bounds one library call, not one case
 	startSteps(stepBudget(c))
 	func() {
 		defer func() {
